@@ -133,3 +133,38 @@ package car
 //@   call[Header.WriteTo#0] assert header [C10]: arg0.DataOffset == 51 && arg0.DataSize == v1Size && arg0.IndexOffset == wrap_u64(51 + v1Size) && v1Size == send(src)
 //@   call[io.Copy#0] assert verbatim_from_start [C10]: pos(src) == sbase(src) && ref(arg1) == ref(src) && ref(arg0) == ref(dst)
 //@   call[index.WriteTo#0] assert index_after_payload [C10]: ref(arg0) == ref(idx) && ref(arg1) == ref(dst)
+
+//@ func (*Reader).IndexReader
+//@   ensures absent [C07,C13]: r.Version == 1 || r.Header.IndexOffset == 0 ==> result0 == nil && err == nil
+
+//@ func (*Reader).DataReader
+//@   ghostinit result0
+//@   ensures window [C07,C10,C13]: err == nil ==> result0 != nil && pos(result0) == sbase(result0) && (r.Version == 2 ==> send(result0) == wrap_s64(r.Header.DataSize) && lim(result0) == pos(result0) + wrap_s64(r.Header.DataSize))
+//@   ensures v1_whole_source [C07]: r.Version != 2 ==> err == nil
+
+//@ func (*Reader).Inspect
+//@   loop[0] invariant reader_ok [C13]: objinv(bdr)
+//@   let dr, derr := call[Reader.DataReader#0]
+//@   let bdr := call[io.ToByteReader#0]
+//@   let sectionLength, slerr := call[varint.ReadUvarint#0]
+//@   let cidLen, c, cerr := call[cid.CidFromReader#0]
+//@   let eq := call[Cid.Equals#0]
+//@   let mh, merr := call[multihash.SumStream#0]
+//@   call[io.ToByteReader#0] assert same_stream [C13]: ref(arg0) == ref(dr)
+//@   call[carv1.ReadHeader#0] assert same_stream [C13]: ref(arg0) == ref(dr) && arg1 == r.opts.MaxAllowedHeaderSize
+//@   call[cid.CidFromReader#0] assert same_stream [C13]: ref(arg0) == ref(dr)
+//@   call[multihash.SumStream#0] assert hashes_block_bytes [C02,C13]: cell(arg0) == cell(dr) && lim(arg0) == min(pos(dr) + (sectionLength - cidLen), lim(dr)) && arg1 == mhtype(c) && arg2 == ite(mhtype(c) == 0, -1, mhlen(c))
+//@   call[Cid.Equals#0] assert compares_with_section_cid [C02,C13]: arg1 == c
+//@   call[Cid.Prefix#0] assert roots_scan_complete [C13]: rootsPresentCount >= len(cur(stats).Roots) || rangeindex + 1 >= len(cur(stats).Roots)
+//@   loop[0] step accepted_section [C02,C13]: slerr == nil && cerr == nil && sectionLength <= r.opts.MaxAllowedSectionSize && cidLen <= sectionLength && !(sectionLength == 0 && r.opts.ZeroLengthSectionAsEOF)
+//@   loop[0] step hash_verified [C02,C13]: validateBlockHash ==> merr == nil && eq
+//@   loop[0] step block_count [C13]: cur(stats).BlockCount == wrap_u64(athead(0, cur(stats).BlockCount) + 1)
+//@   loop[0] step cid_total [C13]: totalCidLength == wrap_u64(athead(0, totalCidLength) + cidLen)
+//@   loop[0] step block_total [C13]: totalBlockLength == wrap_u64(athead(0, totalBlockLength) + (sectionLength - cidLen))
+//@   loop[0] step min_cid [C13]: minCidLength == min(athead(0, minCidLength), cidLen)
+//@   loop[0] step max_cid [C13]: cur(stats).MaxCidLength == max(athead(0, cur(stats).MaxCidLength), cidLen)
+//@   loop[0] step min_block [C13]: minBlockLength == min(athead(0, minBlockLength), sectionLength - cidLen)
+//@   loop[0] step max_block [C13]: cur(stats).MaxBlockLength == max(athead(0, cur(stats).MaxBlockLength), sectionLength - cidLen)
+//@   check averages [C13]: err == nil && result0.BlockCount > 0 ==> result0.AvgCidLength == totalCidLength / result0.BlockCount && result0.AvgBlockLength == totalBlockLength / result0.BlockCount && result0.MinCidLength == minCidLength && result0.MinBlockLength == minBlockLength
+//@   check roots_present [C13]: err == nil ==> result0.RootsPresent == (len(result0.Roots) == rootsPresentCount)
+//@   check version_header [C13]: err == nil ==> result0.Version == r.Version && result0.Header == r.Header
